@@ -7,7 +7,8 @@ return Ok without having compared the stored checksum.
 Does not decide: strength of CRC32, corruption of the trailer's own type word beyond R4."""
 import re
 
-from tmpl import site, suffix, done_sites, start_sites
+from tmpl import site, suffix, done_sites, start_sites, origin_locals, local_defs
+from mir import operand_places, pl_fields
 
 SEC = 'storage::secondary::'
 GET_BLOCK = SEC + 'column::Column::get_block'
@@ -166,3 +167,38 @@ def run(ctx):
         ctx.ob(R6, 'finish_block·type≺checksum≺trailer', ok,
                f'encode_except_checksum {e1} must precede build_checksum {bc}, which must precede encode_checksum {e2}', [fbk.loc])
 
+    R7 = 'C18-R7'
+    ctx.rule(R7, 'every block trailer carries the configured checksum type: in BlockIndexBuilder::finish_block the checksum type given to '
+                 'build_checksum (and written into the trailer) is read from the builder options, or from a field of self that '
+                 'finish_block itself never writes or mutably borrows; a template that is consumed by the first block leaves every '
+                 'later block with the default type None, whose "checksum" is always valid')
+    fb = prog.body('storage::secondary::block::block_index_builder::BlockIndexBuilder::finish_block')
+    if ctx.anchor(R7, 'BlockIndexBuilder::finish_block', fb is not None):
+        ctx.functions_analysed.add(fb.name)
+        bc = [c for c in fb.calls if (c.fn or '').endswith('checksum::build_checksum')]
+        if ctx.anchor(R7, 'finish_block: build_checksum', bc):
+            # fields of *self that finish_block writes or borrows mutably
+            written = set()
+            for bb, st in fb.stmts():
+                if st['s'] != 'assign':
+                    continue
+                if st['lhs']['l'] == 1 and st['lhs']['p']:
+                    written |= set(pl_fields(st['lhs'])[:1])
+                rv = st['rv']
+                if rv.get('rv') == 'ref' and rv.get('mut') and rv['pl']['l'] == 1:
+                    written |= set(pl_fields(rv['pl'])[:1])
+            for c in bc:
+                src_fields = set()
+                for l in origin_locals(fb, c.args[0]['pl']['l'], depth=12) if c.args and c.args[0]['k'] != 'const' else []:
+                    for bb, kind, payload in local_defs(fb, l):
+                        if kind == 'assign':
+                            for pl in operand_places(payload):
+                                if pl['l'] == 1:
+                                    src_fields |= set(pl_fields(pl)[:1])
+                from_options = any(f.endswith('BlockIndexBuilder::options') for f in src_fields)
+                stable = bool(src_fields) and not (src_fields & written)
+                ctx.ob(R7, 'finish_block·checksum-type-from-stable-config', from_options or stable,
+                       f'checksum type of the trailer comes from self fields {sorted(src_fields)}; fields finish_block writes or mutably '
+                       f'borrows: {sorted(written)}', [site(fb, c.bb)],
+                       what='BlockIndexBuilder::finish_block takes the trailer\'s checksum type from state it consumes: only the first block '
+                            'of a column file is written with the configured checksum, corruption in every later block goes undetected')
